@@ -65,10 +65,16 @@ static void gen_input(mzd_t *M) {
       for (int t = 0; t < i; ++t)
         if ((sel >> t) & 1) for (int j = 0; j < W; ++j) mzd_row(M, i)[j] ^= mzd_row(M, t)[j];
     }
-#ifdef LASTCONC
-  for (int i = NR - 2; i > 0; --i) {
+#ifdef ZTAIL /* trailing all-zero rows (after the concrete last non-zero row) */
+  for (int i = NR - ZTAIL; i < NR; ++i) for (int j = 0; j < W; ++j) mzd_row(M, i)[j] = 0;
+#define NRS (NR - ZTAIL)
 #else
-  for (int i = NR - 1; i > 0; --i) {
+#define NRS NR
+#endif
+#ifdef LASTCONC
+  for (int i = NRS - 2; i > 0; --i) {
+#else
+  for (int i = NRS - 1; i > 0; --i) {
 #endif
     int t = (int)(vlcg_next() % (word)(i + 1));
     mzd_row_swap(M, i, t);
